@@ -17,13 +17,14 @@ theorem wsClient_lockset : check wsClient = true := by decide
 /-- websocket connection: `connState` under `stateLock`, every `Conn.WriteMessage` under `writeLock` -/
 theorem wsConn_lockset : check wsConn = true := by decide
 
-/-- `Conn.ReadMessage` is called only from the read loop … -/
-theorem readMessage_only_in_readLoop : wsConn_call_ReadMessage = ["go runReadLoop"] := by decide
+/-- the frame-reading methods of the underlying connection (`ReadMessage`, `NextReader`, `ReadJSON`)
+are called only from the read loop … -/
+theorem readMessage_only_in_readLoop : wsConn_call_wsread = ["go runReadLoop"] := by decide
 /-- … which is spawned only by `Listen` -/
 theorem readLoop_spawned_only_by_Listen : wsConn_spawn_runReadLoop = ["Listen"] := by decide
-/-- the only call site of `Conn.WriteMessage` is inside `connection.WriteMessage` (whose call is
-inside the `writeLock` section by `wsConn_lockset`); `Write`, `Close`, `CloseWithMsg` go through it -/
-theorem writeMessage_single_site : wsConn_call_WriteMessage = ["WriteMessage"] := by decide
+/- every call of a frame-writing method of the underlying connection (`WriteMessage`, `NextWriter`,
+`WriteControl`, `WritePreparedMessage`, `WriteJSON`) is a `write wswrite` node of the graph, wherever it
+is: `wsConn_lockset` covers them all, no single-site obligation is needed. -/
 
 /-! protocol constants of the source equal the model's -/
 theorem const_size : Consts.OptSize = kSize := by decide
